@@ -162,6 +162,15 @@ func lbFallbackScenario(e *Env) []string {
 			continue
 		}
 		quiesce()
+		// C17: the estimate is a moving average of CALL durations: the time a caller spent waiting for
+		// the pause to end is not part of it (the fake transport answers in microseconds)
+		if _, sa := r.snap(); len(sb.List) > 1 {
+			for _, t := range sa.Targets {
+				if t.Latency > int64(pause/4) && t.Latency < int64(30*time.Second) {
+					e.fail("C17-latency-includes-waiting", fmt.Sprintf("after callers that had waited %v for a Fallback pause were routed, the latency estimate of %s is %v although its calls took microseconds", pause, t.Address, time.Duration(t.Latency)), r.replay())
+				}
+			}
+		}
 		ops := []string{"LFallbackOff", "LDetect"}
 		var saw []string
 		for i := 0; i < ncall; i++ {
